@@ -12,6 +12,7 @@ package main
 
 import (
 	"bufio"
+	"crypto/sha256"
 	"encoding/json"
 	"fmt"
 	"math/big"
@@ -148,6 +149,101 @@ func hasDup(xs []*big.Int) bool {
 		}
 	}
 	return false
+}
+
+// refHashPoint is an INDEPENDENT reference of bn256.hashToCurvePoint / G1.HashToPoint
+// (crypto/sha256 + math/big only, nothing of the code under test): x = SHA-256(m) mod p, incremented
+// until x^3+3 is a square; y = (x^3+3)^((p+1)/4) (p = 3 mod 4, the root big.Int.ModSqrt returns).
+// Result in the 64-byte Marshal form. This is what the op lines carry as H(m) and what the
+// searcher expects; the code's own hash point is compared against it.
+func refHashPoint(msg []byte) []byte {
+	d := sha256.Sum256(msg)
+	x := new(big.Int).SetBytes(d[:])
+	x.Mod(x, fieldP)
+	e := new(big.Int).Add(fieldP, big.NewInt(1))
+	e.Rsh(e, 2)
+	for {
+		t := new(big.Int).Exp(x, big.NewInt(3), fieldP)
+		t.Add(t, big.NewInt(3))
+		t.Mod(t, fieldP)
+		y := new(big.Int).Exp(t, e, fieldP)
+		if new(big.Int).Exp(y, big.NewInt(2), fieldP).Cmp(t) == 0 {
+			o := make([]byte, 64)
+			xb, yb := x.Bytes(), y.Bytes()
+			copy(o[32-len(xb):32], xb)
+			copy(o[64-len(yb):], yb)
+			return o
+		}
+		x.Add(x, big.NewInt(1))
+	}
+}
+
+// shortCoordMsg searches (reference only) for a message whose hash point has coordinate `which`
+// ("x"/"y") with at least `zeroBytes` leading zero bytes. Message lengths vary.
+func shortCoordMsg(r *hx.Rng, which string, zeroBytes int) []byte {
+	base := r.Bytes(r.Pick(0, 1, 8, 28, 28, 46))
+	limit := new(big.Int).Lsh(big.NewInt(1), uint(256-8*zeroBytes))
+	for ctr := uint32(0); ; ctr++ {
+		m := append(append([]byte{}, base...), byte(ctr>>24), byte(ctr>>16), byte(ctr>>8), byte(ctr))
+		if which == "x" {
+			// cheap pre-filter on the digest: the increment loop moves x by a few units at most
+			d := sha256.Sum256(m)
+			x0 := new(big.Int).SetBytes(d[:])
+			if x0.Mod(x0, fieldP).Cmp(limit) >= 0 {
+				continue
+			}
+		}
+		h := refHashPoint(m)
+		off := 0
+		if which == "y" {
+			off = 32
+		}
+		ok := true
+		for i := 0; i < zeroBytes; i++ {
+			if h[off+i] != 0 {
+				ok = false
+			}
+		}
+		if ok {
+			return m
+		}
+	}
+}
+
+// fixed messages (found once with shortCoordMsg, kept so that every run has them even before any
+// search): hash point with x < 2^240, y < 2^240, x < 2^248, y < 2^248.
+var fixedShortMsgs = []string{
+	"a4fbd7f47343c33e1453fe895212bdba562863135eacd0e0159ab2d51c08bcede3f0ec0086f0103841bbf693ae2f00009122", // x < 2^240
+	"03b982e53a6b216d000132af", // y < 2^240
+	"5566e01e679f392ca7c064203607e00f47f6dbe219c109fb822723290000010a",                                     // x < 2^248
+	"b4cb763ba60ff200a26644d32e08eef4d3d5dc7439c486affa19fd921d813ec3e226f89e9abda9265dd64eb02ec400000001", // y < 2^248
+}
+
+// msgPool: boundary messages of this run.
+type msgPool struct {
+	msgs  [][]byte
+	kinds []string
+}
+
+func newMsgPool(r *hx.Rng, thorough bool) *msgPool {
+	mp := &msgPool{}
+	add := func(k string, m []byte) { mp.msgs = append(mp.msgs, m); mp.kinds = append(mp.kinds, k) }
+	for i, f := range fixedShortMsgs {
+		b, _ := hx.UnHex(f)
+		add(fmt.Sprintf("fixed%d", i), b)
+	}
+	add("x<2^248", shortCoordMsg(r, "x", 1))
+	add("y<2^248", shortCoordMsg(r, "y", 1))
+	add("x<2^240", shortCoordMsg(r, "x", 2))
+	if thorough {
+		add("y<2^240", shortCoordMsg(r, "y", 2))
+		add("x<2^232", shortCoordMsg(r, "x", 3))
+		for i := 0; i < 4; i++ {
+			add("y<2^248", shortCoordMsg(r, "y", 1))
+			add("x<2^248", shortCoordMsg(r, "x", 1))
+		}
+	}
+	return mp
 }
 
 // hashToG1 is unexported: H(m) = Sign(1, m).
@@ -333,6 +429,20 @@ func execOp(line string) string {
 		}
 		s := groupsig.RecoverGroupSignature(m, k)
 		return "ok " + sigTok(s)
+	case "hashg1":
+		// hashg1 <msg> <reference H(m)>: the code's hash-to-G1 (through Sign(1, m)); the model side
+		// answers with the reference point carried on the line
+		if len(w) != 3 {
+			return "bad-op"
+		}
+		msg, err := hx.UnHex(w[1])
+		if err != nil {
+			return "bad-op"
+		}
+		if hx.Hex(refHashPoint(msg)) != w[2] {
+			return "bad-op"
+		}
+		return hx.Hex(hashPoint(msg))
 	case "g2add", "g2mul":
 		if len(w) != 3 {
 			return "bad-op"
@@ -496,6 +606,8 @@ type dkgObs struct {
 	GpkAgree    bool
 	First, All  string
 	Direct      string
+	HashDiffers bool   // code's H(m) differs from the reference
+	RefDirect   string // gsk * (reference H(m)), computed without the code's hash-to-G1
 	Twin        string // group signature held by logical.groupSignGenerator ("" when the hook is absent)
 }
 
@@ -562,8 +674,15 @@ func execDkg(w []string, obs *dkgObs) string {
 			}
 		}
 	}
+	if hx.Hex(refHashPoint(msg)) != hx.Hex(hm) {
+		return "bad-op" // the line's H(m) is not the reference hash point of its message
+	}
 	if hx.Hex(hashPoint(msg)) != hx.Hex(hm) {
-		return "hm-mismatch"
+		// the code's hash-to-G1 disagrees with the independent reference
+		if obs == nil {
+			return "hm-mismatch " + hx.Hex(hashPoint(msg))
+		}
+		obs.HashDiffers = true
 	}
 	d, errS := runDkg(seeds, ids, common.BytesToHash(gh), nil)
 	if errS != "" {
@@ -613,6 +732,7 @@ func execDkg(w []string, obs *dkgObs) string {
 	}
 	if obs != nil {
 		obs.First, obs.All, obs.Direct = first, allS, sigTok(&direct)
+		obs.RefDirect = hx.Hex(new(bn.G1).ScalarMult(g1Of(hm), gsk.GetBigInt()).Marshal())
 		if lgenNew != nil && m >= k {
 			tw := lgenNew(k)
 			for _, a := range arr {
@@ -645,8 +765,9 @@ func execDkg(w []string, obs *dkgObs) string {
 // generators
 
 type gen struct {
-	r   *hx.Rng
-	out *hx.Out
+	r    *hx.Rng
+	out  *hx.Out
+	pool *msgPool
 	// distribution
 	dist map[string]int
 }
@@ -702,6 +823,12 @@ func (g *gen) idSet(n int, class string) []*big.Int {
 			add(big.NewInt(int64(1 + g.r.Intn(3*n+2))))
 		case "hash": // 256-bit hashes as the node derives them (about 44% are >= r)
 			add(g.bigBytes(32))
+		case "lead0": // ids with 1..3 leading zero bytes (ID.Serialize must left-pad them), rest random
+			if g.r.Bool() {
+				add(g.bigBytes(32 - g.r.Pick(1, 1, 2, 3)))
+			} else {
+				add(g.bigBytes(32))
+			}
 		case "wrap": // values around r and 2^256
 			switch g.r.Intn(4) {
 			case 0:
@@ -744,7 +871,7 @@ func (g *gen) idSet(n int, class string) []*big.Int {
 }
 
 func (g *gen) idClass() string {
-	cs := []string{"small", "hash", "hash", "hash", "wrap", "zero", "collide"}
+	cs := []string{"small", "hash", "hash", "lead0", "lead0", "wrap", "zero", "collide"}
 	return cs[g.r.Intn(len(cs))]
 }
 
@@ -763,8 +890,11 @@ func (g *gen) point(class string) []byte {
 		return make([]byte, 64)
 	case "gen":
 		return append([]byte{}, genBytes...)
-	case "hash":
-		return hashPoint(g.r.Bytes(1 + g.r.Intn(40)))
+	case "hash": // H(m) from the independent reference, boundary-biased messages
+		m, _ := g.message()
+		return refHashPoint(m)
+	case "shortcoord":
+		return g.shortCoordPoint()
 	case "mult":
 		return new(bn.G1).ScalarBaseMult(g.scalar()).Marshal()
 	case "offcurve":
@@ -792,8 +922,28 @@ func (g *gen) point(class string) []byte {
 	return new(bn.G1).ScalarBaseMult(g.bigBytes(32)).Marshal()
 }
 
+// message: boundary-biased. Half of the time a message whose hash point has a coordinate with
+// leading zero bytes (from the pool), otherwise random bytes of varied length.
+func (g *gen) message() ([]byte, string) {
+	if g.pool != nil && len(g.pool.msgs) > 0 && g.r.Bool() {
+		i := g.r.Intn(len(g.pool.msgs))
+		return g.pool.msgs[i], g.pool.kinds[i]
+	}
+	return g.r.Bytes(g.r.Pick(0, 1, 32, 32, 50)), "random"
+}
+
+// shortCoordPoint: k*G whose x or y has a leading zero byte (fixed-width Marshal must pad it).
+func (g *gen) shortCoordPoint() []byte {
+	for {
+		b := new(bn.G1).ScalarBaseMult(g.bigBytes(32)).Marshal()
+		if b[0] == 0 || b[32] == 0 {
+			return b
+		}
+	}
+}
+
 func (g *gen) pointClass() string {
-	cs := []string{"mult", "mult", "mult", "hash", "gen", "inf", "offcurve", "unreduced"}
+	cs := []string{"mult", "mult", "shortcoord", "hash", "hash", "gen", "inf", "offcurve", "unreduced"}
 	return cs[g.r.Intn(len(cs))]
 }
 
@@ -990,11 +1140,32 @@ func (g *gen) genRecover(n int) {
 	}
 }
 
+// hash-to-G1 of the code against the reference, on boundary messages
+func (g *gen) genHash(n int) {
+	for i, m := range g.pool.msgs {
+		g.count("hashg1.msg=" + g.pool.kinds[i])
+		g.emit("hashg1 " + hx.Hex(m) + " " + hx.Hex(refHashPoint(m)))
+	}
+	for i := 0; i < n; i++ {
+		m := g.r.Bytes(g.r.Pick(0, 1, 2, 31, 32, 33, 64, 100))
+		g.count("hashg1.msg=random")
+		g.emit("hashg1 " + hx.Hex(m) + " " + hx.Hex(refHashPoint(m)))
+	}
+}
+
 // G2: scalar multiples of the generator, sums, and AggregatePubkeys of GeneratePubkey(k_i)
 func (g *gen) genG2(n int) {
 	pt := func() string {
 		if g.r.Chance(1, 8) {
 			return "00"
+		}
+		if g.r.Chance(1, 4) { // a coordinate with a leading zero byte
+			for {
+				b := new(bn.G2).ScalarBaseMult(g.bigBytes(32)).Marshal()
+				if b[0] == 0 || b[32] == 0 || b[64] == 0 || b[96] == 0 {
+					return hx.Hex(b)
+				}
+			}
 		}
 		return hx.Hex(new(bn.G2).ScalarBaseMult(g.scalar()).Marshal())
 	}
@@ -1111,6 +1282,18 @@ func (g *gen) dkgLineIds(n int, cl string, arrivals func(k int) []int, idsOut *[
 	for i := range seeds {
 		seeds[i] = g.r.Bytes(1 + g.r.Intn(32))
 	}
+	if g.r.Chance(1, 3) {
+		// one dealer whose secret (constant term) has a leading zero byte
+		for t := 0; t < 4000; t++ {
+			sd := g.r.Bytes(8)
+			sk := groupsig.NewSeckeyFromRand(base.RandFromBytes(sd))
+			if len(sk.Serialize()) < 32 {
+				seeds[g.r.Intn(n)] = sd
+				g.count("dkg.dealer-seed-secret-leading-zero")
+				break
+			}
+		}
+	}
 	ids := g.idSet(n, cl)
 	if idsOut != nil {
 		*idsOut = ids
@@ -1120,14 +1303,15 @@ func (g *gen) dkgLineIds(n int, cl string, arrivals func(k int) []int, idsOut *[
 	if errS != "" {
 		return "", false
 	}
-	msg := g.r.Bytes(g.r.Pick(0, 1, 32, 32, 50))
+	msg, mk := g.message()
+	g.count("dkg.msg=" + mk)
 	arr := arrivals(d.k)
 	if g.out != nil && collides(ids) && len(arr) > d.k {
 		// correspondence stream: with ids congruent mod r the result depends on which k-subset the
 		// Go code draws (the known finding), so only the deterministic case m = k is compared
 		arr = arr[:d.k]
 	}
-	w := []string{"dkg", hx.Hex(msg), hx.Hex(gh), hx.Hex(hashPoint(msg)), g2BaseTok, strconv.Itoa(d.k), strconv.Itoa(n), strconv.Itoa(len(arr)), g.jsFor(len(arr), d.k)}
+	w := []string{"dkg", hx.Hex(msg), hx.Hex(gh), hx.Hex(refHashPoint(msg)), g2BaseTok, strconv.Itoa(d.k), strconv.Itoa(n), strconv.Itoa(len(arr)), g.jsFor(len(arr), d.k)}
 	for _, s := range seeds {
 		w = append(w, hx.Hex(s))
 	}
@@ -1228,7 +1412,7 @@ type searchOut struct {
 
 func search(r *hx.Rng, thorough bool, hintLines []string) searchOut {
 	so := searchOut{Dist: map[string]int{}, Algebra: map[string]int{}}
-	g := &gen{r: r, dist: so.Dist}
+	g := &gen{r: r, dist: so.Dist, pool: newMsgPool(r.Fork(), thorough)}
 	seen := map[string]bool{}
 	addV := func(key, desc, line string) {
 		if len(so.Violations) < 40 {
@@ -1275,6 +1459,12 @@ func search(r *hx.Rng, thorough bool, hintLines []string) searchOut {
 					break
 				}
 			}
+		}
+		if obs.HashDiffers {
+			addV("hash-to-g1-differs-from-reference", "H(m) computed by the code differs from the independent try-and-increment reference", line)
+		}
+		if obs.RefDirect != obs.Direct {
+			addV("signature-differs-from-reference", "Sign(group secret, m) differs from gsk*(reference H(m)): "+trunc(obs.Direct, 40)+" vs "+trunc(obs.RefDirect, 40), line)
 		}
 		for j, ok := range obs.ShareVerify {
 			if !ok {
@@ -1473,6 +1663,16 @@ func main() {
 	case "exec":
 		fmt.Println(hx.Guard(func() string { return execOp(a["op"]) }))
 		return
+	case "findmsgs":
+		// print messages whose reference hash point has short coordinates (to be pasted into fixedShortMsgs)
+		for _, c := range []struct {
+			w string
+			z int
+		}{{"x", 2}, {"y", 2}, {"x", 1}, {"y", 1}} {
+			m := shortCoordMsg(rng, c.w, c.z)
+			fmt.Printf("MSG %s zero=%d %s -> %s\n", c.w, c.z, hx.Hex(m), hx.Hex(refHashPoint(m)))
+		}
+		return
 	case "mkdkg":
 		// mkdkg ids=<hex,hex,..> arrival=<i,i,..> msg=<hex>: build a dkg op line with seeds 01,02,..
 		var ids []*big.Int
@@ -1495,7 +1695,7 @@ func main() {
 			panic(errS)
 		}
 		msg, _ := hx.UnHex(a["msg"])
-		w := []string{"dkg", hx.Hex(msg), hx.Hex(gh), hx.Hex(hashPoint(msg)), g2BaseTok, strconv.Itoa(d.k), strconv.Itoa(n), strconv.Itoa(len(arr)), "-"}
+		w := []string{"dkg", hx.Hex(msg), hx.Hex(gh), hx.Hex(refHashPoint(msg)), g2BaseTok, strconv.Itoa(d.k), strconv.Itoa(n), strconv.Itoa(len(arr)), "-"}
 		if len(arr) > d.k {
 			js := make([]string, d.k)
 			for i := range js {
@@ -1534,7 +1734,7 @@ func main() {
 		panic(err)
 	}
 	defer out.Close()
-	g := &gen{r: rng, out: out, dist: map[string]int{}}
+	g := &gen{r: rng, out: out, dist: map[string]int{}, pool: newMsgPool(rng.Fork(), thorough)}
 	for _, l := range readCorpus(os.Getenv("VERIF_CORPUS")) {
 		g.count("corpus")
 		g.emit(l)
@@ -1552,6 +1752,7 @@ func main() {
 	g.genRecover(40 * scale)
 	g.genSignGen(30 * scale)
 	g.genG2(12 * scale)
+	g.genHash(20 * scale)
 	min, max := model.Param.GroupMemberMin, model.Param.GroupMemberMax
 	if thorough {
 		var sizes []int
